@@ -10,3 +10,4 @@ for pid in "$@"; do
   (cd /verif && ./check "$pid" --tier quick 2>&1 | grep -E "VIOLATION|KNOWN-FINDING|done in|problems" ; echo "exit=$?")
 done
 cd /repo && git checkout -f HEAD -- . && git status --short | head -3
+python3 /verif/tools/gen_facts.py >/dev/null  # SourceFacts.v back to the clean tree
